@@ -57,9 +57,12 @@ Flags == {0, 1}
 ClaimOK(c) ==
   LET C == Crv(c.c) idx == c.lo..c.hi IN
   /\ \A j \in idx : AllRows[j].c = c.c /\ AllRows[j].op = c.op
-  /\ CASE c.kind = "points" ->       \* every point of the curve appears
-            /\ Cardinality(AllPoints(C)) = CurvesJ[c.c].order
-            /\ {A(C, AllRows[j].P) : j \in idx} = AllPoints(C)
+  /\ CASE c.kind = "points" ->       \* every point of the curve appears: the rows' points are on the curve and
+                                    \* there are as many distinct ones as the curve has points (Euler count)
+            LET S == {A(C, AllRows[j].P) : j \in idx} IN
+            /\ \A Pt \in S : OnCurve(C, Pt)
+            /\ Cardinality(S) = CountPoints(C)
+            /\ CountPoints(C) = CurvesJ[c.c].order
        [] c.kind = "words1" ->       \* every word with x in 0..c.xmax and every flag combination
             {<<AllRows[j].w.c, AllRows[j].w.b, AllRows[j].w.a, AllRows[j].w.x>> : j \in idx}
               = Flags \X Flags \X Flags \X (0..c.xmax)
